@@ -5,5 +5,5 @@
 mod rolling;
 
 fn main() {
-    vh::main_loop(rolling::run);
+    rolling::main_loop_private();
 }
